@@ -121,6 +121,21 @@ Definition c_get_tuples (e : endian) (a : pkt_addrs) (sport_b dport_b : list N) 
   let m := write off_tk_c_sport (store e 2 (load e sport_b)) m in
   write off_tk_c_dport (store e 2 (load e dport_b)) m.
 
+(* copy_reversed_tuples(key, dst): the reversed conn_state_map key built from a reply-direction packet.
+   `prior` is whatever the destination (an uninitialised stack slot at every call site) held before; whether
+   the function clears it first is read from the source on every run (gen: c_reversed_memset). *)
+Definition seg (off len : nat) (m : list N) : list N := firstn len (skipn off m).
+Definition c_copy_reversed (prior key : list N) : list N :=
+  let m := if c_reversed_memset then zeros size_tk_c else prior in          (* __builtin_memset(dst, 0, sizeof(*dst)) *)
+  let m := write off_tk_c_dip8 (seg off_tk_c_sip8 16 key) m in                 (* dst->dip = key->sip *)
+  let m := write off_tk_c_sip8 (seg off_tk_c_dip8 16 key) m in                 (* dst->sip = key->dip *)
+  let m := write off_tk_c_sport (seg off_tk_c_dport 2 key) m in                (* dst->sport = key->dport *)
+  let m := write off_tk_c_dport (seg off_tk_c_sport 2 key) m in                (* dst->dport = key->sport *)
+  write off_tk_c_l4proto (seg off_tk_c_l4proto 1 key) m.                       (* dst->l4proto = key->l4proto *)
+
+(* fill_redirect_tuple_from_forward_packet: memset, then the two mapped addresses of the tuple *)
+Definition c_redirect_tuple (key : list N) : list N := (seg off_tk_c_sip8 16 key ++ seg off_tk_c_dip8 16 key)%list.
+
 (* the packet a flow travels in (both addresses of one family) *)
 Definition pkt_of (src dst : ipaddr) : option pkt_addrs :=
   match src, dst with
@@ -134,6 +149,10 @@ Definition c_flow_key (e : endian) (f : flow) : option (list N) :=
   | Some a => Some (c_get_tuples e a (be_bytes 2 (f_sport f)) (be_bytes 2 (f_dport f)) (f_proto f))
   | None => None
   end.
+
+Definition reverse_flow (f : flow) : flow := mkflow (f_dst f) (f_src f) (f_dport f) (f_sport f) (f_proto f).
+Definition c_reversed_flow_key (e : endian) (prior : list N) (f : flow) : option (list N) :=
+  match c_flow_key e f with Some k => Some (c_copy_reversed prior k) | None => None end.
 
 (* a Go address value denotes a packet address: IPv4 peers show up as 4 or as 4-in-6 *)
 Definition go_repr (g : goaddr) (ip : ipaddr) : Prop :=
